@@ -51,6 +51,39 @@ static std::string uvr(Toks& t) {
     return o.str();
 }
 
+// ldcols / uvrcols: the same arguments, one call per column of the batch (each a one-column input)  ->  ok L.. D..
+static std::string ldcols(Toks& t) {
+    long d = t.nat(), b = t.nat();
+    MatrixXd x = t.mat(d, b); VectorXd m = t.vec(d); MatrixXd S = t.mat(d, d);
+    t.done();
+    VectorXd L(b), D(b);
+    for (long c = 0; c < b; ++c) {
+        VectorXd l = utils::multivariate_gaussian_log_density(x.col(c), m, S);
+        VectorXd e = utils::multivariate_gaussian_density(x.col(c), m, S);
+        if (l.size() != 1 || e.size() != 1) { Out o; o.s("badsize"); o.n(l.size()); o.n(e.size()); return o.str(); }
+        L(c) = l(0); D(c) = e(0);
+    }
+    Out o; o.s("ok"); o.n(L.size()); o.m(L); o.n(D.size()); o.m(D);
+    return o.str();
+}
+static std::string uvrcols(Toks& t) {
+    long nb = t.nat(), bs = t.nat(), k = t.nat(), b = t.nat(), enc = t.nat();
+    long d = nb * bs;
+    MatrixXd x = t.mat(d, b); VectorXd m = t.vec(d);
+    MatrixXd U = t.mat(d, k), V = t.mat(k, d);
+    MatrixXd R = (enc == 0) ? t.mat(bs, bs) : t.mat(bs, d);
+    t.done();
+    VectorXd L(b), D(b);
+    for (long c = 0; c < b; ++c) {
+        VectorXd l = utils::multivariate_gaussian_log_density_UVR(x.col(c), m, U, V, R);
+        VectorXd e = utils::multivariate_gaussian_density_UVR(x.col(c), m, U, V, R);
+        if (l.size() != 1 || e.size() != 1) { Out o; o.s("badsize"); o.n(l.size()); o.n(e.size()); return o.str(); }
+        L(c) = l(0); D(c) = e(0);
+    }
+    Out o; o.s("ok"); o.n(L.size()); o.m(L); o.n(D.size()); o.m(D);
+    return o.str();
+}
+
 // lse n x  (as a column vector)     lsem r c x (as an r×c matrix)   ->  ok value
 static std::string lse(Toks& t) {
     long n = t.nat(); VectorXd x = t.vec(n); t.done();
@@ -67,6 +100,8 @@ int main() {
     return vh::run([](const std::string& op, Toks& t, std::string& out) {
         if (op == "ld") { out = ld(t); return true; }
         if (op == "uvr") { out = uvr(t); return true; }
+        if (op == "ldcols") { out = ldcols(t); return true; }
+        if (op == "uvrcols") { out = uvrcols(t); return true; }
         if (op == "lse" || op == "lsex") { out = lse(t); return true; }
         if (op == "lsem") { out = lsem(t); return true; }
         return false;
